@@ -51,9 +51,15 @@ fn minimise(sc: &Scenario, mode: Prop, class: &str) -> (Scenario, usize) {
     let mut budget = 1500usize;
     let start = budget;
     let base = sc.clone();
+    // (bounded in time as well: a history with a 65 536-fold repetition costs up to a second per
+    // evaluation; what is left when the time is up is reported as it stands)
+    let t0 = std::time::Instant::now();
     let ops = simcore::ddmin(
         &sc.ops,
         |cand| {
+            if t0.elapsed().as_secs() >= 25 {
+                return false;
+            }
             let mut c = base.clone();
             c.ops = cand.to_vec();
             let r = run_scenario(&c, mode, false);
